@@ -91,6 +91,12 @@ func verifStartedChannelRWC(n *Node, t io.ReadWriteCloser) *Channel {
 	return ch
 }
 
+// a received frame carrying a raw message whose id is outside the harness dialect
+func verifOutsideFrame(seq byte) frame.Frame {
+	return &frame.V2Frame{SequenceNumber: seq, SystemID: 8, ComponentID: 7, Checksum: 0x1234,
+		Message: &message.MessageRaw{ID: 9999, Payload: []byte{1, 2, 3}}}
+}
+
 // L1 (C13, second sentence): a write on a channel fails (transport error at the first Write, or an item that cannot be
 // encoded for the link). Afterwards the channel is either closed and reported by a close event, or it keeps
 // delivering later valid writes. One schedule: every goroutine runs until it blocks, round-robin, to quiescence.
@@ -100,6 +106,13 @@ func verifStartedChannelRWC(n *Node, t io.ReadWriteCloser) *Channel {
 func verifHarness_C13_failed_write(cause int, k int, wrap int) {
 	n := verifBareNode(V2, 1, 1)
 	t := &verifBlockRWC{}
+	outside := false
+	if cause == 8 {
+		// a pure router forwarding frames whose (raw) message id its dialect does not know, on a link whose write
+		// side fails for good: forwarding needs no dialect, so the failure is the transport's, not the item's
+		outside = true
+		cause = 3
+	}
 	if cause >= 5 {
 		// 5: message, failing once; 6: message, 7: frame, failing for good; the failing calls report the full byte
 		// count together with the error
@@ -135,6 +148,9 @@ func verifHarness_C13_failed_write(cause int, k int, wrap int) {
 	if cause == 2 {
 		fr, _ := verifForwardFrame(true)
 		first = fr
+		if outside {
+			first = verifOutsideFrame(1)
+		}
 	}
 	if cause == 1 {
 		id := verifNondetU32()
@@ -148,7 +164,11 @@ func verifHarness_C13_failed_write(cause int, k int, wrap int) {
 	// a further valid item of the same kind (a pure router only ever forwards frames)
 	if cause == 2 {
 		fr2, _ := verifForwardFrame(true)
-		ch.write(fr2)
+		if outside {
+			ch.write(verifOutsideFrame(2))
+		} else {
+			ch.write(fr2)
+		}
 	} else {
 		ch.write(&message.MessageRaw{ID: 202, Payload: []byte{9, 9, 9, 9, 9}})
 	}
@@ -258,6 +278,16 @@ func verifHarness_C12_close(scenario int) {
 // item in arrival order, then exactly one close event carrying the transport's error, then nothing; every
 // goroutine of the channel has ended.
 func verifHarness_C10_consumer(keyed int, chunk int) {
+	verifC10Consumer(keyed, chunk, 0)
+}
+
+// the same over a custom endpoint's connection (the wrapper EndpointCustom puts around the user's transport), the
+// transport delivering its last bytes together with io.EOF
+func verifHarness_C10_consumer_custom(keyed int, chunk int) {
+	verifC10Consumer(keyed, chunk, 1)
+}
+
+func verifC10Consumer(keyed int, chunk int, custom int) {
 	n := verifBareNode(V2, 1, 1)
 	var kb []byte
 	if keyed == 1 {
@@ -278,6 +308,14 @@ func verifHarness_C10_consumer(keyed int, chunk int) {
 	}
 	rwc := &verifRWC{rd: frame.VerifChunkReader(stream, chunks)}
 	ch := &Channel{node: n, rwc: rwc}
+	if custom == 1 {
+		rwc.rd = frame.VerifChunkReaderEndWithData(stream, chunks)
+		e := &endpointCustom{node: n, conf: EndpointCustom{rwc}}
+		verifAssert(e.initialize() == nil, "C10/C/custom-endpoint-init")
+		_, conn, perr := e.provide()
+		verifAssert(perr == nil && conn != nil, "C10/C/custom-endpoint-provides")
+		ch = &Channel{node: n, rwc: conn}
+	}
 	verifAssert(ch.initialize() == nil, "C10/C/channel-init")
 	verifChanSink(n.chCloseChannel)
 	n.channels[ch] = struct{}{}
@@ -310,7 +348,9 @@ func verifHarness_C10_consumer(keyed int, chunk int) {
 	stillBlocked := verifRunGoroutines(nil)
 	verifAssert(!stillBlocked && verifBlockedGoroutines() == 0, "C10/C/channel-goroutines-ended")
 	verifAssert(len(n.chEvent) == 0, "C10/C/nothing-after-close")
-	verifAssert(rwc.closed >= 1, "C10/C/transport-closed")
+	if custom == 0 {
+		verifAssert(rwc.closed >= 1, "C10/C/transport-closed")
+	}
 	verifReach("C10/C")
 }
 
